@@ -312,6 +312,13 @@ DRemove(h) == /\ Open("descriptor") /\ h \in Removable
                       /\ UNCHANGED <<m, ntx>>
                       /\ Log([act |-> "RemoveDescriptor", h |-> h, res |-> "ok"])
                  ELSE Rejected([act |-> "RemoveDescriptor", h |-> h])
+\* the same through the entity interface (remove_entity of an entity object obtained from the MDIB)
+DRemoveEntity(h) == /\ Open("descriptor") /\ h \in Removable /\ m.D[h].present /\ ~InD(h) /\ Single(h) /\ m.S[h].present
+                    /\ \A i \in 1..Len(tx.d) : tx.d[i].op = "crt" => tx.d[i].parent \notin Subtree(m.D, h)
+                    /\ tx' = Op([tx EXCEPT !.d = Append(@, [h |-> h, op |-> "del", parent |-> m.D[h].parent,
+                                                              ver |-> m.D[h].ver, tok |-> m.D[h].tok])])
+                    /\ UNCHANGED <<m, ntx>>
+                    /\ Log([act |-> "RemoveEntity", h |-> h, res |-> "ok"])
 
 \* get_state inside a descriptor transaction: only for a descriptor that is part of the transaction
 DGetState(h) ==
@@ -337,6 +344,22 @@ DWriteEntityAs(h, t, name) ==
           /\ Log([act |-> name, h |-> h, t |-> t, res |-> "ok"])
      ELSE Rejected([act |-> name, h |-> h, t |-> t])
 DWriteEntity(h, t) == DWriteEntityAs(h, t, "WriteEntity")
+\* descriptor transaction: write_entities with a list of two entities (the library writes parents first, whatever the
+\* order of the list); both must be writable, else the call is refused
+DWriteEntities(h1, h2, t) ==
+  /\ Open("descriptor") /\ h1 # h2
+  /\ \A h \in {h1, h2} : m.D[h].present /\ Single(h) /\ m.S[h].present
+  /\ IF ~InD(h1) /\ ~InD(h2)
+     THEN /\ LET DI(h) == [h |-> h, op |-> "upd", parent |-> m.D[h].parent, ver |-> m.D[h].ver + 1, tok |-> t]
+                 SI(h) == [h |-> h, op |-> "upd", via |-> "ent", sver |-> m.S[h].sver + 1, dver |-> m.D[h].ver + 1, tok |-> t]
+                 PutS(s, h) == LET i == Idx(s, "h", h) IN IF i = 0 THEN Append(s, SI(h)) ELSE [s EXCEPT ![i] = SI(h)]
+                 \* parents first
+                 a == IF m.D[h1].parent = h2 THEN h2 ELSE h1
+                 b == IF a = h1 THEN h2 ELSE h1
+             IN tx' = Op([tx EXCEPT !.d = Append(Append(@, DI(a)), DI(b)), !.s = PutS(PutS(@, a), b)])
+          /\ UNCHANGED <<m, ntx>>
+          /\ Log([act |-> "DWriteEntities", hs |-> <<h1, h2>>, t |-> t, res |-> "ok"])
+     ELSE Rejected([act |-> "DWriteEntities", hs |-> <<h1, h2>>, t |-> t])
 DWriteKept(h, t) == kept = h /\ DWriteEntityAs(h, t, "WriteKeptEntity")
 
 \* entity interface for a CONTEXT descriptor in a descriptor transaction: by_handle(d), change the descriptor, optionally
@@ -483,7 +506,8 @@ Next == \/ \E src \in {"getter", "entity", "result"}, t \in Tok : MutateCopy(src
         \/ \E src \in {"kept_upd", "kept_new"}, t \in Tok : kept # NoneP /\ m.D[kept].present /\ MutateCopy(src, t)
         \/ \E h \in KeepH : KeepEntity(h)
         \/ \E h \in H, t \in Tok : SWriteKept(h, t) \/ DWriteKept(h, t)
-        \/ \E h1, h2 \in H, t \in Tok : SWriteEntities(h1, h2, t)
+        \/ \E h1, h2 \in H, t \in Tok : SWriteEntities(h1, h2, t) \/ DWriteEntities(h1, h2, t)
+        \/ \E h \in H : DRemoveEntity(h)
         \/ \E d \in H, t \in Tok, nc \in CH \cup {NoneP}, dc \in CH \cup {NoneP} : DWriteEntityCtx(d, t, nc, dc)
         \/ \E k \in BeginKinds : Begin(k)
         \/ Abort \/ Commit
